@@ -82,6 +82,11 @@ func CheckTx(nic NIC, f []byte) (info TxInfo, bad []TxFinding) {
 		if !refdec.Verify1071(ip[:ihl]) {
 			add("ip4:checksum", "IPv4 header checksum does not verify")
 		}
+		// no send path fragments: a frame with the more-fragments bit, a fragment offset or the reserved bit set is not a
+		// complete packet (a receiver would wait for the other fragments or drop it)
+		if ff := int(ip[6])<<8 | int(ip[7]); ff&0x8000 != 0 || ff&0x2000 != 0 || ff&0x1fff != 0 {
+			add("ip4:fragment", "IPv4 flags/fragment offset field is %#04x (reserved=%v MF=%v offset=%d): not a complete datagram", ff, ff&0x8000 != 0, ff&0x2000 != 0, ff&0x1fff)
+		}
 		if tot > len(ip) {
 			tot = len(ip)
 		}
